@@ -12,6 +12,7 @@
 #include <vector>
 #include <memory>
 #include <new>
+#include <algorithm>
 #include <boost/mpl/vector.hpp>
 #include <boost/fusion/include/mpl.hpp>
 #include <boost/msm/front/state_machine_def.hpp>
@@ -30,12 +31,19 @@ using msm::front::Row; using msm::front::none; using msm::front::Defer;
 
 // ------------------------------------------------------------------------------------------------ ledger
 struct Ledger {
-    std::set<const void*> live;           // addresses of tracked event objects currently constructed
+    // addresses of tracked event objects currently constructed (a sorted vector, not std::set: the red-black tree code lives in the
+    // uninstrumented libstdc++.so and would blind MemorySanitizer)
+    struct Live {
+        std::vector<const void*> v;
+        bool insert(const void* p) { auto it = std::lower_bound(v.begin(), v.end(), p); if (it != v.end() && *it == p) return false; v.insert(it, p); return true; }
+        bool erase(const void* p) { auto it = std::lower_bound(v.begin(), v.end(), p); if (it == v.end() || *it != p) return false; v.erase(it); return true; }
+        bool empty() const { return v.empty(); } size_t size() const { return v.size(); } void clear() { v.clear(); }
+    } live;
     std::vector<std::string> errors;
     long constructed = 0, destroyed = 0, verified = 0;
     bool sanitizer_report = false;
     void err(const std::string& s) { if (errors.size() < 20) errors.push_back(s); }
-    void ctor(const void* p) { constructed++; if (!live.insert(p).second) err("construction on top of a live object"); }
+    void ctor(const void* p) { constructed++; if (!live.insert(p)) err("construction on top of a live object"); }
     void dtor(const void* p) { destroyed++; if (!live.erase(p)) err("destruction of an object that is not alive (double destroy / never constructed)"); }
     void reset() { live.clear(); errors.clear(); constructed = destroyed = verified = 0; sanitizer_report = false; }
 };
@@ -217,8 +225,9 @@ template <class E> struct Runner {
         // dispatch their own copy, so only duplicates without any copy in the sequence are an error
         bool has_copy = false; for (int op : seq) if (op == COPYC || op == COPYA) has_copy = true;
         if (!has_copy) {
-            std::set<int> seen;
-            for (int s : g_dispatched) if (!seen.insert(s).second) { problems++; why += " event #" + std::to_string(s) + " dispatched twice;"; break; }
+            std::vector<int> seen(g_dispatched); std::sort(seen.begin(), seen.end());
+            auto dup = std::adjacent_find(seen.begin(), seen.end());
+            if (dup != seen.end()) { problems++; why += " event #" + std::to_string(*dup) + " dispatched twice;"; }
         }
         return problems;
     }
